@@ -300,6 +300,9 @@ def build_for(pid, tier):
     if pid in ('C01', 'C03'):
         from . import miner_activate
         O += miner_activate.build_for(pid, tier)
+    if pid in ('C01', 'C03', 'C05', 'C15'):
+        from . import miner_activate
+        O += miner_activate.build_prove_ni(pid, tier)
     if pid in ('C15', 'C01', 'C03', 'C05'):
         O += miner_cron.build_pet(pid, tier)
         O += miner_cron.build_precommit(pid, tier)
